@@ -417,7 +417,7 @@ def main():
         } for n, p, k in ENGINES],
         'checks': checks,
         'not_applicable': na,
-        'notes': 'Static analysis only: every check parses /repo working-tree sources with ast on each run and never imports or executes repository code. Exit 0 = all obligations discharged (known findings printed as KNOWN-FINDING), 1 = VIOLATION lines, 2 = ANALYSIS-ERROR (unrecognised shape / vanished anchor / instance floor not met). Genuine defects repaired in /repo: fix: commits c092a66 1af4b51 63eabab 3aaef6f 2d839ac 8cbad9d (see known_findings.json, DESIGN.md section 5).',
+        'notes': 'Static analysis only: every check parses /repo working-tree sources with ast on each run and never imports or executes repository code. Exit 0 = all obligations discharged (known findings printed as KNOWN-FINDING), 1 = VIOLATION lines, 2 = ANALYSIS-ERROR (unrecognised shape / vanished anchor / instance floor not met / a dependency changed that no rule examines / equal to the reference only up to added assertions). Before the rules run, today\'s tree is moved towards the copy under /verif/reference by behaviour-preserving rewrites only (renamed functions, inlined new helpers, functions proven equivalent to their reference version by a decision-tree comparison with mod/ref version tags; DESIGN.md 10.6); every rewrite is recorded in the evidence under coverage.normalised. Every check also carries R-resolve (definitions are unique and not rebound in the modules it consulted) and R-dep (DESIGN.md 10.8). Genuine defects repaired in /repo: fix: commits c092a66 1af4b51 63eabab 3aaef6f 2d839ac 8cbad9d 92e8f4e 3e9847f (see known_findings.json, DESIGN.md section 5 and 10.3). Validation of the machinery itself (not run by the registered commands): selftest/run.py, selftest/autotwins.py, tools/seeded_status.py (seeded/INDEX.md), tools/twin_status.py (selftest/TWINS.md), tools/equiv_report.py.',
     }
     with open(os.path.join(HERE, 'MANIFEST.json'), 'w') as fh:
         json.dump(man, fh, indent=1)
